@@ -44,6 +44,16 @@ CLAIMED = {
             "exactly that FAB's payload) on top of shapeOK_sound; every corrupted instance default validation accepts is read back in full "
             "and compared with the FAB whose header names the box's range.",
             "NoStrayHeader: payloads that spell a FAB header are not generated; instances with several candidate headers are counted, not judged."),
+    "C05": ("Lean 4 theorem on the record-level colander model + differential correspondence check",
+            "Proof: Writers.colander_data (for any distribution and order of boxes in the input files, entry i of the output level header "
+            "points at a record that is box i and holds exactly the kept components, any payload type) with recAt_tells/scatter_get (offset "
+            "re-mapping); outputs are parsed by the oracle, tasted, compared bit for bit with the input and offset for offset with the model.",
+            "Header text rewriting (names, min/max rows) is checked by the oracle on the real output only."),
+    "C06": ("Lean 4 theorem on the record-level combine model + differential correspondence check",
+            "Proof: Writers.combine_data / assemble_data (both pairing modes: each output record is the concatenation of the selected "
+            "components of the two source boxes with the same index, for independent layouts); outputs compared bit for bit with both "
+            "inputs and offset for offset with the model; mismatched meshes must be refused before anything is written.",
+            "The mesh comparison (__eq__) uses numpy allclose on physical bounds: outside the model, exercised on the real code."),
 }
 
 NOT_YET = {}
